@@ -47,7 +47,7 @@ PlanC01Quick ==
 
 Hand2 == {L2mixed, L2one, L2sym, L2gap, L2tx}
 PlanC01Thorough ==
-  [sample2 |-> E("sample", All1 \cup Hand2,                                   1, {}, TRUE),
+  [sample2 |-> E("sample", All1 \cup All2s \cup Hand2,                        1, {}, TRUE),
    sample4 |-> E("sample", {L4mixed, L4span},                                 1, {}, TRUE),
    row2    |-> E("row",    All1 \cup All2s,                                   2, {}, TRUE),
    row4    |-> E("row",    {L4mixed, L4span},                                 2, {"side", "swap", "cell2", "cellT"}, TRUE),
@@ -55,6 +55,7 @@ PlanC01Thorough ==
    rnd4    |-> E("rnd",    {L4mixed, L4span},                                 1, {}, TRUE),
    rnd5    |-> E("rnd",    {L4gaps},                                          1, {}, FALSE),
    range2  |-> E("range",  Hand2 \cup All1,                                   2, RangeT, TRUE),
+   range3  |-> E("range",  All2s \ Hand2,                                     1, {}, TRUE),
    range4  |-> E("range",  {L4one},                                           2, {"slice", "slice0"}, FALSE),
    range5  |-> E("range",  {L4span, L4mixed},                                 1, {}, FALSE)]
 
@@ -70,7 +71,8 @@ PlanC02Quick ==
 
 PlanC02Thorough ==
   [nd2    |-> E("nd",     All1 \cup All2,                                     1, {}, TRUE),
-   nd2b   |-> E("nd",     {L2mixed, L2gap, L2one, L2tx},                      2, NdT, TRUE),
+   nd2b   |-> E("nd",     Hand2 \cup {Lay(<<2, <<3,3, 3,5>>, <<1,1, 0,1>> >>), Lay(<<2, <<1,3, 3,8>>, <<1,1, 1,0>> >>),
+                           Lay(<<2, <<3,5, 7,7>>, <<1,1, 1,1>> >>)},          2, NdT, TRUE),
    nd4    |-> E("nd",     {L4mixed, L4span, L4gaps, L4one},                   2, {"rm", "move"}, TRUE),
    rnd2   |-> E("rnd",    All2s \cup {L2tx},                                  1, {}, TRUE),
    rnd4   |-> E("rnd",    {L4gaps, L4mixed},                                  1, {}, TRUE),
